@@ -198,6 +198,33 @@ Definition synched_ahead (order : list name) (gs : list (name * P)) : trace P :=
   | (n, _) :: _ => match check_name order [] n with Some c => ([], Raise c) | None => sync_ahead order order [] gs end
   | [] => (map (fun _ => empty) order, Stop)
   end.
+(* the code after notes/C12.fix-4.diff (what /repo has now): `for (name, data), following in _with_following(grouped)`;
+   the two guards (`_check_name`) run on the group's own name at the top of the loop body as before, the missing
+   contigs get their defaults, and BEFORE `yield data` the name of the following group (if there is one) goes through
+   the same `_check_name` with the already updated seen set.  `contig_order[cur_contig_idx]` past the end is still an
+   IndexError (unreachable when the contig names are distinct). *)
+Fixpoint sync_fol (order rest seen : list name) (gs : list (name * P)) : trace P :=
+  match gs with
+  | [] => (map (fun _ => empty) rest, Stop)      (* trailing defaults *)
+  | (n, p) :: gs' =>
+      match check_name order seen n with
+      | Some c => ([], Raise c)
+      | None =>
+          let '(k, r) := sync_skip n rest seen in
+          match r with
+          | None => (repeat empty k, Raise E_INDEX)
+          | Some (rest', seen') =>
+              match gs' with
+              | (n', _) :: _ => match check_name order seen' n' with
+                                | Some c => (repeat empty k, Raise c)
+                                | None => yapp (repeat empty k ++ [p]) (sync_fol order rest' seen' gs')
+                                end
+              | [] => yapp (repeat empty k ++ [p]) (map (fun _ => empty) rest', Stop)   (* loop ends: trailing defaults *)
+              end
+          end
+      end
+  end.
+Definition synched_fol (order : list name) (gs : list (name * P)) : trace P := sync_fol order order [] gs.
 End Payload.
 
 (* --- left_join(grouped_left, grouped_right): left = (name, size) pairs of the contig list *)
@@ -281,9 +308,16 @@ Definition genome_trace (fixed_order ahead keepall : bool) (genome extra : list 
 Definition FIXED_ORDER := true.
 Definition AHEAD := true.
 Definition genome_trace_head := genome_trace FIXED_ORDER AHEAD.
-Definition SYNC_AHEAD := false.            (* fix-3 *)
-Definition synched_head (order : list bname) (gs : list (bname * ids)) : trace ids :=
-  if SYNC_AHEAD then synched_ahead bname zlist_eqb ids [] order gs else synched bname zlist_eqb ids [] order gs.
+Definition SYNC_AHEAD := false.            (* fix-3 (superseded by fix-4, never committed) *)
+Definition SYNC_FOLLOWING := true.         (* fix-4: the following group's name is checked before `yield data` *)
+(* shape of SynchedStream.__iter__: 0 = plain `for name, data in grouped` (pinned history, the code before fix-4),
+   1 = fix-3's while/next_item loop, 2 = fix-4's `for (name, data), following in _with_following(grouped)` *)
+Definition sync_shape : Z := if SYNC_FOLLOWING then 2 else if SYNC_AHEAD then 1 else 0.
+Definition synched_by_shape (shape : Z) (order : list bname) (gs : list (bname * ids)) : trace ids :=
+  if shape =? 2 then synched_fol bname zlist_eqb ids [] order gs
+  else if shape =? 1 then synched_ahead bname zlist_eqb ids [] order gs
+  else synched bname zlist_eqb ids [] order gs.
+Definition synched_head (order : list bname) (gs : list (bname * ids)) : trace ids := synched_by_shape sync_shape order gs.
 
 (* ================= the decision rules as functions of flags =================
    One flag per atomic test of the source (`name in self._ignored`, `next_name in seen`, ...).  Bridge/C12.v proves
@@ -302,7 +336,13 @@ Definition m_walk_leftover_error (pending_is_none : bool) : bool := negb pending
 Definition m_sync_check (in_seen in_order : bool) : Z :=                                      (* SynchedStream guards *)
   if in_seen then E_SEEN else if negb in_order then E_NOTIN else 0.
 Definition m_sync_keeps_skipping (idx_in_range is_current : bool) : bool := idx_in_range && negb is_current.
-Definition m_sync_checks_before_yield : bool := SYNC_AHEAD.
+Definition m_sync_checks_before_yield : bool := SYNC_AHEAD || SYNC_FOLLOWING.
+Definition m_sync_shape : Z := sync_shape.
+(* fix-4: the check applied to the following group before `yield data` is the same two guards, on the key-mapped name
+   of the following group, against the seen set AFTER the current contig was added; skipped when there is no following group *)
+Definition m_sync_following_check (has_following in_seen in_order : bool) : Z :=
+  if has_following then m_sync_check in_seen in_order else 0.
+Definition m_with_following_pairs : bool := true.   (* _with_following yields (item, next item | None), every item once, in order *)
 Definition m_lj_gets_default (same_name : bool) : bool := negb same_name.                    (* left_join *)
 Definition m_lj_final_ok (right_exhausted : bool) : bool := right_exhausted.                 (* its final assert *)
 Definition m_change_at (whole_keys_equal : bool) : bool := negb whole_keys_equal.            (* get_changes: key[i+1] != key[i] *)
@@ -386,6 +426,15 @@ Definition labelled (G : list bname) (asg : list ids) : list (bname * Z) :=
 Definition machine_field (t : trace ids) : res (list Z) :=      (* compute((gi.start, gi.stop)): one leaf *)
   stream_guard t (res_map (fun rows => concat (map row_table rows))
                           (lockstep item (S (length (fst t))) (map (source_of [] t ([], Stop) []) m_pull_order_field))).
+
+(* zip over ANY number of MultiStream attributes followed by ms.lengths: column i of the rows the machine returns *)
+Definition column {U} (d : U) (i : nat) (rows : list (list U)) : list U := map (fun r => nth i r d) rows.
+(* Spec side: does this stream's data have an assignment (order-compatible, only known contigs)? *)
+Definition spec_some (order : list bname) (gs : list (bname * ids)) : bool :=
+  match spec_sync bname zlist_eqb ids [] order [] gs with Some _ => true | None => false end.
+Definition table_src (t : trace ids) : trace item := (map ITable (fst t), snd t).
+Definition zip_all_sources (order : list bname) (gss : list (list (bname * ids))) (sizes : list Z) : list (trace item) :=
+  map (fun gs => table_src (synched_head order gs)) gss ++ [(map ISize sizes, Stop)].
 
 (* MultiStream(sizes, a=<table held in memory>): `value = NpDataclassStream([value], value.__class__)` — the table is
    the one-chunk stream of itself and goes through SynchedStream like any stream (multistream.py MultiStream.__init__) *)
